@@ -42,3 +42,47 @@ Example c12_nonvacuous :
      [CopyStar "s.t3" "s.t1"]] ["s.t1"; "s.t2"]
   = "a,b|a,b#RAISED#a,b@@s.t1=a,b;s.t2=".
 Proof. reflexivity. Qed.
+
+(** * Concurrent runs, each with its own provider (Provider/Interleave.v).
+    One run is a small-step machine over its own provider (one micro-step per statement, one for the session's
+    __exit__); a world is a list of such runs; a schedule says which run moves next.  Running one machine to its end is
+    [eval]; at ANY point of ANY schedule every run is where it would be had it run alone for as many steps as it got
+    (isolation invariant); hence under every complete schedule - every interleaving - each run ends with the provider
+    state and the result [eval] gives, which is what every sequential order gives.  With ONE provider shared by the runs
+    the statement is false (two witnesses), which is why the property asks for "its own provider". *)
+From SV Require Import Provider.Interleave.
+
+Theorem c12_small_steps_are_eval : forall stmt payload analyze p ss k, S (List.length ss) <= k ->
+  steps stmt payload analyze k (init stmt payload p ss) =
+  (fst (eval stmt payload analyze p ss), Done stmt payload (snd (eval stmt payload analyze p ss))).
+Proof. exact run_small_steps_eval. Qed.
+Print Assumptions c12_small_steps_are_eval.
+
+Theorem c12_isolation_at_any_point : forall stmt payload analyze sched w i,
+  nth_error (exec stmt payload analyze w sched) i =
+  option_map (steps stmt payload analyze (count i sched)) (nth_error w i).
+Proof. exact prefix_isolation. Qed.
+Print Assumptions c12_isolation_at_any_point.
+
+Theorem c12_every_interleaving_is_sequential : forall stmt payload analyze jobs sched,
+  complete stmt payload (init_world stmt payload jobs) sched = true ->
+  exec stmt payload analyze (init_world stmt payload jobs) sched =
+  map (fun j => finished stmt payload (eval stmt payload analyze (fst j) (snd j))) jobs.
+Proof. exact interleaving_world_is_sequential. Qed.
+Print Assumptions c12_every_interleaving_is_sequential.
+
+Theorem c12_interleaving_equals_any_sequential_order : forall stmt payload analyze jobs sched order,
+  complete stmt payload (init_world stmt payload jobs) sched = true ->
+  (forall i, i < List.length jobs -> In i order) ->
+  exec stmt payload analyze (init_world stmt payload jobs) sched =
+  exec stmt payload analyze (init_world stmt payload jobs) (sequential stmt payload (init_world stmt payload jobs) order).
+Proof. exact interleaving_equals_any_sequential_order. Qed.
+Print Assumptions c12_interleaving_equals_any_sequential_order.
+
+(** with ONE provider shared by two concurrent runs an interleaving gives a result no sequential order gives *)
+Theorem c12_shared_provider_refuted :
+  let w := init_shared Abstract.astmt (list string) PS [scriptA; scriptB] in
+  results (exec_shared _ _ (Abstract.analyze true) w [0; 1; 0; 1; 0; 1]) <> results (exec_shared _ _ (Abstract.analyze true) w [0; 0; 0; 1; 1; 1]) /\
+  results (exec_shared _ _ (Abstract.analyze true) w [0; 1; 0; 1; 0; 1]) <> results (exec_shared _ _ (Abstract.analyze true) w [1; 1; 1; 0; 0; 0]).
+Proof. vm_compute. split; discriminate. Qed.
+Print Assumptions c12_shared_provider_refuted.
